@@ -42,6 +42,6 @@ SimDrain == /\ Len(hist) = Depth /\ io[N] # <<>> /\ FsStep(N) /\ UNCHANGED hist
 SimNext == SimStep \/ SimDrain \/ SimFinish
 SimSpec == SimInit /\ [][SimNext]_svars
 
-ASSUME PrintT(<<"VP", "PLAN", ToJson([responses |-> Responses, errors |-> ErrReplies, out |-> OutKinds, inventory |-> Inventory,
+ASSUME PrintT(<<"VP", "PLAN", ToJson([responses |-> Responses, errors |-> ErrReplies, damage_forms |-> DamageForms, damage_files |-> DamageFiles, load_emitters |-> LoadErrEmitters, out |-> OutKinds, inventory |-> Inventory,
                                       peerfacing |-> PeerFacing, files |-> FileKinds])>>)
 =============================================================================
